@@ -75,7 +75,17 @@ def step (_ : Unit) (pre post : List String) : Unit × Verdict :=
         let cfg := look m "cfg"
         -- a failing line whose final state the model did not predict gets a different signature
         let tag := if model = impl then "" else "/model-disagrees"
-        if !decide stored.Nodup then .propfail ("dup-under-interleaving" ++ tag) s!"cfg={cfg} steps={look m "steps"} stored={look r "stored"}"
+        -- keeper-level family (real HandleRelay, hosted chain acts during Execute): there a relay's
+        -- proof is stored before the request is executed, so EVERY answered relay must be recorded
+        -- (sealed or not) and no more than `max` relays may be answered
+        let pcsI := (look r "pcs").splitOn ","
+        let answeredIdx := (List.range pcsI.length).filter fun i => pcsI.getD i "" = "responded"
+        let unrecorded := answeredIdx.filter fun i => match ids[i]? with | some p => !stored.contains p | none => false
+        if cfg.startsWith "hr-" && !unrecorded.isEmpty && decide stored.Nodup then
+          .propfail ("served-relay-not-recorded" ++ tag) s!"cfg={cfg} steps={look m "steps"} stored={look r "stored"} pcs={look r "pcs"} log={look r "log"}"
+        else if cfg.startsWith "hr-" && answeredIdx.length > max then
+          .propfail ("over-limit-under-interleaving" ++ tag) s!"cfg={cfg} max={max} answered={answeredIdx.length} steps={look m "steps"} stored={look r "stored"}"
+        else if !decide stored.Nodup then .propfail ("dup-under-interleaving" ++ tag) s!"cfg={cfg} steps={look m "steps"} stored={look r "stored"}"
         else if n > max || stored.length > max then .propfail ("over-limit-under-interleaving" ++ tag) s!"cfg={cfg} max={max} steps={look m "steps"} n={n} stored={look r "stored"}"
         else if !missing.isEmpty then
           if evs.contains .seal then .propfail ("responded-before-seal-not-recorded" ++ tag) s!"cfg={cfg} steps={look m "steps"} stored={look r "stored"} log={look r "log"}"
